@@ -49,7 +49,7 @@ def rand_content(rng, nrows=None, ty=None, **kw):
 
 def rand_labels(rng, n, kind=None, pattern=None):
     kind = kind or rng.choice(["int", "str"])
-    pattern = pattern or rng.choice(["range", "unique_sorted", "unique_unsorted", "dup_sorted", "dup_unsorted"])
+    pattern = pattern or rng.choice(["range", "unique_sorted", "unique_unsorted", "dup_sorted", "dup_unsorted", "desc_dups"])
     if pattern == "range":
         vals = list(range(n))
     elif pattern.startswith("unique"):
@@ -61,10 +61,14 @@ def rand_labels(rng, n, kind=None, pattern=None):
         vals = [rng.randint(0, pool) for _ in range(n)]
         if pattern == "dup_sorted":
             vals.sort()
+        if pattern == "desc_dups":
+            vals.sort(reverse=True)
     if kind == "str":
         vals = [f"k{v:+03d}" for v in vals]
         if pattern.endswith("_sorted") or pattern == "range":
             vals.sort()
+        if pattern == "desc_dups":
+            vals.sort(reverse=True)
     return vals
 
 
